@@ -227,3 +227,67 @@ Theorem C05_map_keys_example :
   /\ mentries s' = ∅.
 Proof. exact map_keys_example. Qed.
 Print Assumptions C05_map_keys_example.
+
+(** * The VALUE half for [Map<K, Orswot<M>>] under op-based replication with causal delivery
+    (duplicates allowed, no state merges — the merge-dependent defect T2 is out of reach, the
+    residue T3 does not touch member tables): proofs/MapOrswot.v. *)
+From Crdt Require Import spec.MapOrswotSpec proofs.MapOrswot.
+
+(** in every state a replica can reach, the member table stored under every key is exactly the
+    per-actor greatest add witnesses that no applied key remove naming the key and no applied
+    nested remove naming the member covers *)
+Theorem C05_mapor_values_refine (H : list (oprec (mop oop))) : mohist_ok H ->
+  forall (s : cmap orswot) (K : gset nat), moreach H s K ->
+    forall k, mo_state_entries s k = mo_entries (known_ops H K) k.
+Proof. exact (mapor_values_refine H). Qed.
+Print Assumptions C05_mapor_values_refine.
+
+(** the literal sentence of the property for nested members *)
+Theorem C05_mapor_member_sentence (H : list (oprec (mop oop))) (s : cmap orswot) (K : gset nat) (k m : N) :
+  mohist_ok H -> moreach H s K ->
+  (m ∈ dom (mo_state_entries s k) <->
+    exists d0 d ms, MUp d0 k (OAdd d ms) ∈ known_ops H K /\ m ∈ ms /\
+      ~ (exists c ks, MRm c ks ∈ known_ops H K /\ k ∈ ks /\ dcounter d <= vget c (dactor d)) /\
+      ~ (exists d1 c ms', MUp d1 k (ORm c ms') ∈ known_ops H K /\ m ∈ ms' /\ dcounter d <= vget c (dactor d))).
+Proof. exact (mapor_member_iff H s K k m). Qed.
+Print Assumptions C05_mapor_member_sentence.
+
+(** the remove context a nested [contains] hands out is exactly the surviving witnesses *)
+Theorem C05_mapor_contains_ctx (H : list (oprec (mop oop))) (s : cmap orswot) (K : gset nat) (k : N) (e : mentry orswot) (m : N) :
+  mohist_ok H -> moreach H s K -> mentries s !! k = Some e ->
+  rm_clock (ocontains (eval e) m) = mo_entry (known_ops H K) k m /\
+  (rval (ocontains (eval e) m) = true <-> m ∈ dom (mo_state_entries s k)).
+Proof. exact (mapor_contains_ctx H s K k e m). Qed.
+Print Assumptions C05_mapor_contains_ctx.
+
+(** the decider the monitor evaluates on the implementation's states holds of every reachable model state *)
+Theorem C05_mapor_valspec_ok (H : list (oprec (mop oop))) (s : cmap orswot) (K : gset nat) :
+  mohist_ok H -> moreach H s K -> movalspec_ok H K s = true.
+Proof. exact (mapor_valspec_ok H s K). Qed.
+Print Assumptions C05_mapor_valspec_ok.
+
+(** non-vacuity: actors 1 and 2 concurrently add {10,11} and {10,12} under key 7; actor 1 removes member 10
+    with its own [contains(10)] context while actor 2 removes key 7 with its own [get(7)] context; both
+    causal delivery orders of the four ops leave exactly member 11 with witness (1,1) *)
+Theorem C05_mapor_nonvacuous :
+  let o0 : mop oop := MUp (Dot 1 1) 7 (OAdd (Dot 1 1) [10; 11]) in
+  let o1 : mop oop := MUp (Dot 2 1) 7 (OAdd (Dot 2 1) [10; 12]) in
+  let o2 : mop oop := MUp (Dot 1 2) 7 (ORm {[1 := 1]} [10]) in
+  let o3 : mop oop := MRm {[2 := 1]} {[7]} in
+  let H : list (oprec (mop oop)) :=
+    [OpRec 1 o0 ∅; OpRec 2 o1 ∅; OpRec 1 o2 (∅ ∪ {[0%nat]}); OpRec 2 o3 (∅ ∪ {[1%nat]})] in
+  let K : gset nat := ∅ ∪ {[0%nat]} ∪ {[1%nat]} ∪ {[2%nat]} ∪ {[3%nat]} in
+  let K' : gset nat := ∅ ∪ {[1%nat]} ∪ {[3%nat]} ∪ {[0%nat]} ∪ {[2%nat]} in
+  let s := mapply orswot_valops (mapply orswot_valops (mapply orswot_valops (mapply orswot_valops mnew o0) o1) o2) o3 in
+  let s' := mapply orswot_valops (mapply orswot_valops (mapply orswot_valops (mapply orswot_valops mnew o1) o3) o0) o2 in
+  mohist_ok H /\ moreach H s K /\ moreach H s' K' /\ K' = K /\
+  known_ops H K = [o0; o1; o2; o3] /\
+  mo_state_entries s 7 = {[11 := {[1 := 1]}]} /\
+  mo_state_entries s' 7 = {[11 := {[1 := 1]}]} /\
+  mo_entries (known_ops H K) 7 = {[11 := {[1 := 1]}]} /\
+  mo_live_dots (known_ops H K) 7 10 = [] /\
+  mo_live_dots (known_ops H K) 7 11 = [Dot 1 1] /\
+  mo_live_dots (known_ops H K) 7 12 = [] /\
+  movalspec_ok H K s = true.
+Proof. exact mapor_example. Qed.
+Print Assumptions C05_mapor_nonvacuous.
